@@ -26,9 +26,17 @@ int vin_range(int lo, int hi) {
 
 /* library error handler: "terminates the process". Formatting dropped. */
 void m4ri_die(const char *errormessage, ...) {
+#ifdef VERIF_DFCC /* write-frame queries: the stub must not itself write a static; allocation may fail under
+                     the contracts library's malloc, which ends the path like the real abort */
+  __CPROVER_assume(0);
+#endif
   verif_died = 1;
 #ifndef WITNESS
   if (!verif_die_expected) __CPROVER_assert(0, "unexpected m4ri_die on a valid call");
+#else
+#ifdef WITNESS_DIE
+  __CPROVER_assert(0, "WITNESS: the library's error handler is reachable");
+#endif
 #endif
   __CPROVER_assume(0);
 }
@@ -57,6 +65,22 @@ double round(double x) { /* round half away from zero, x >= 0 at every call site
   return (x - (double)n >= 0.5) ? (double)(n + 1) : (double)n;
 }
 word m4ri_random_word(void) { return nondet_word(); }
+
+/* word-wise memcpy: CBMC's built-in byte-level model turns concrete words into byte-extract terms
+ * that symex no longer constant-folds (PASSIVE mode needs the concrete part to stay concrete).
+ * mzd_submatrix is the only library caller on matrix data; sizes are concrete multiples of 8 there. */
+void *memcpy(void *dst, const void *src, size_t n) {
+  if (n % sizeof(word) == 0) {
+    word *d = (word *)dst;
+    word const *s = (word const *)src;
+    for (size_t i = 0; i < n / sizeof(word); ++i) d[i] = s[i];
+  } else {
+    char *d = (char *)dst;
+    char const *s = (char const *)src;
+    for (size_t i = 0; i < n; ++i) d[i] = s[i];
+  }
+  return dst;
+}
 
 long random(void) {
   long r = nondet_int();
@@ -127,8 +151,33 @@ void m4ri_die(const char *errormessage, ...) {
 #endif
 
 /* code books: the real generator, only for the k the scenario needs (DESIGN F2) */
+#if __M4RI_ENABLE_MMC && defined(VDIRTY_S0) && !defined(REPLAY)
+#include <m4ri/mmc.h>
+/* C10: put recycled, dirty blocks of the sizes the scenario is about to request into the block cache
+ * (CBMC's malloc returns nondeterministic contents), so "fresh" matrices and tables are handed
+ * recycled memory with arbitrary contents */
+static void vdirty(size_t sz, int slot) {
+  void *p = malloc(sz);
+  __CPROVER_assume(p != NULL);
+  m4ri_mmc_cache[slot].size = sz;
+  m4ri_mmc_cache[slot].data = p;
+}
+#endif
+
 void verif_init(int kmax) {
   if (m4ri_codebook) return;
+#if __M4RI_ENABLE_MMC && defined(VDIRTY_S0) && !defined(REPLAY)
+  vdirty(VDIRTY_S0, 0);
+#ifdef VDIRTY_S1
+  vdirty(VDIRTY_S1, 1);
+#endif
+#ifdef VDIRTY_S2
+  vdirty(VDIRTY_S2, 2);
+#endif
+#ifdef VDIRTY_S3
+  vdirty(VDIRTY_S3, 3);
+#endif
+#endif
   m4ri_codebook = (code **)calloc(__M4RI_MAXKAY + 1, sizeof(code *));
 #ifndef REPLAY
   __CPROVER_assume(m4ri_codebook != NULL);
